@@ -339,10 +339,14 @@ def rule5_join(ctx, v):
                                'tryjoin tests the finished state under th->lock', loc=l.loc)
             for r in g.exits():
                 ctx.ob('C01.5', name + ': unlocked at return', not la2.held_may(r), 'no lock held at return', loc=r.loc)
-    for r in f.exits():
-        ctx.ob('C01.5', 'myth_join_body: unlocked at return', not [k for k in la.held_may(r)
-                                                                 if not any(la.held_must(s.ins, k) for s in sw)] or True,
-               'locks are released on the non-blocking path', loc=r.loc)
+    # the lock is either released by join itself or handed to the callback of a blocking switch (which releases it, below):
+    # no return is reachable from the lock acquisition without passing one of the two
+    unl_here = [u for u in call_sites(f, lib.SPIN_UNLOCK) if f.ap(u.args[0]).fields[-1:] == [TH + 'lock']]
+    for l0 in [c_ for c_ in call_sites(f, lib.SPIN_LOCK) if f.ap(c_.args[0]).fields[-1:] == [TH + 'lock']]:
+        leaked = [r for r in f.reachable_from(l0, blocked=unl_here + [s.ins for s in sw]) if r.op == 'ret']
+        ctx.ob('C01.5', 'myth_join_body: th->lock released or handed over before returning', not leaked,
+               'a join that returns with the target\'s lock held leaves the recycled descriptor locked for its next owner',
+               loc=(leaked[0].loc if leaked else l0.loc), trace=[] if not leaked else lib.lines(f.witness_path(l0, leaked, blocked=unl_here + [s.ins for s in sw])))
     # callbacks
     for cbn, waiter in (('myth_join_2', 'env'), ('myth_join_3', 'arg1')):
         c = ctx.need_fn(v, cbn)
@@ -555,6 +559,8 @@ def run(ctx):
 SCHED = 'src/myth_sched_func.h'
 SPIN = 'src/myth_spinlock_func.h'
 MUTANTS = [
+    {'name': 'join returns with the lock of an already finished target (sweep M0364)', 'expect': 'C01.5',
+     'edits': [(SCHED, "    myth_spin_unlock_body(&th->lock);\n    while (th->status != MYTH_STATUS_FREE_READY2);", "    while (th->status != MYTH_STATUS_FREE_READY2);")]},
     {'name': 'attr_init forgets child_first', 'expect': 'C01.1',
      'edits': [(SCHED, "  myth_globalattr_get_child_first_body(0, &attr->child_first);\n", "")]},
     {'name': 'attr_init forgets custom_data (original defect D1)', 'expect': 'C01.1',
